@@ -1,12 +1,15 @@
 // Package c02: correspondence driver for C02 (Synchronization objects and snapshots equal
-// the set of matching objects).  Three kinds of cases:
+// the set of matching objects).  Four kinds of cases:
 //   - snap: a real monitor on a fake cluster follows a history of create/modify/delete over
 //     several namespaces and names; at quiescence (and after a restart) its Snapshot() is
 //     compared entry by entry (identity, filterResult, object) with the matching objects of the cluster;
 //   - upd: the real HookController.UpdateSnapshots over a reader that answers differently
 //     on every call (changes arriving during an execution): one read per binding, keys =
 //     includeSnapshotsFrom, Synchronization objects = that binding's read;
-//   - grp: a real hook configuration with unnamed kubernetes bindings sharing a group.
+//   - grp: a real hook configuration with unnamed kubernetes bindings sharing a group;
+//   - dyn (dyn.go): a binding with namespace.labelSelector: a real monitor with its real namespace
+//     informer follows histories of object AND namespace operations (created with / without the
+//     label, relabelled, deleted) and operator restarts; Snapshot() at every quiet point.
 package c02
 
 import (
@@ -90,6 +93,10 @@ type Input struct {
 	Snap *SnapIn `json:"snap,omitempty"`
 	Upd  *UpdIn  `json:"upd,omitempty"`
 	Grp  *GrpIn  `json:"grp,omitempty"`
+	// dyn: a binding with namespace.labelSelector (dyn.go); the history is a member of its own
+	// so that a failing case can be shortened (Spec.ShrinkKey)
+	Dyn    *DynIn  `json:"dyn,omitempty"`
+	DynOps []DynOp `json:"dyn_ops,omitempty"`
 }
 
 type UpdCtxObs struct {
@@ -104,6 +111,7 @@ type Obs struct {
 	Reads   []int       `json:"reads,omitempty"` // bindings in the order they were read
 	GrpKeys []string    `json:"grp_keys,omitempty"`
 	GrpObjs []string    `json:"grp_objs,omitempty"`
+	Dyn     [][]View    `json:"dyn_reads,omitempty"` // the snapshot at every read of a dyn history
 	Note    string      `json:"note,omitempty"`
 }
 
@@ -185,7 +193,54 @@ func monitorConfig(in SnapIn) *kubeeventsmanager.MonitorConfig {
 	return mc
 }
 
-func stableSnapshot(vm *kubeeventsmanager.VerifC01Monitor) []View {
+// snapExpected: what the harness's own bookkeeping says the quiet state is - only a waiting
+// criterion (the judgement is Coq's); the ghost of F26 is not part of it.
+func snapExpected(in SnapIn) []View {
+	cur := map[[2]int]int{}
+	for _, ob := range in.Initial {
+		cur[[2]int{ob.Ns, ob.Name}] = ob.Proj
+	}
+	for _, op := range in.Ops {
+		if op.Kind == "delete" {
+			delete(cur, [2]int{op.Ns, op.Name})
+		} else {
+			cur[[2]int{op.Ns, op.Name}] = op.Proj
+		}
+	}
+	member := func(x int, l []int) bool {
+		for _, y := range l {
+			if x == y {
+				return true
+			}
+		}
+		return len(l) == 0
+	}
+	var r []View
+	for k, p := range cur {
+		if !member(k[0], in.Namespaces) || !member(k[1], in.Names) {
+			continue
+		}
+		v := View{k[0], k[1], -1, -1}
+		if in.Filter {
+			v.Fr = p % 10
+		}
+		if !in.DropFull {
+			v.Full = p
+		}
+		r = append(r, v)
+	}
+	sort.Slice(r, func(i, j int) bool {
+		if r[i].Ns != r[j].Ns {
+			return r[i].Ns < r[j].Ns
+		}
+		return r[i].Name < r[j].Name
+	})
+	return r
+}
+
+// stableSnapshot reads the snapshot until it has not changed for four more reads AND has
+// reached the expected quiet state, or until the deadline; it returns the last snapshot read.
+func stableSnapshot(vm *kubeeventsmanager.VerifC01Monitor, expect []View) []View {
 	read := func() []View {
 		var r []View
 		for _, o := range vm.M.Snapshot() {
@@ -193,6 +248,7 @@ func stableSnapshot(vm *kubeeventsmanager.VerifC01Monitor) []View {
 		}
 		return r
 	}
+	want := fmt.Sprint(expect)
 	prev := read()
 	same := 0
 	deadline := time.Now().Add(1500 * time.Millisecond)
@@ -201,7 +257,7 @@ func stableSnapshot(vm *kubeeventsmanager.VerifC01Monitor) []View {
 		cur := read()
 		if fmt.Sprint(cur) == fmt.Sprint(prev) {
 			same++
-			if same >= 4 {
+			if same >= 4 && fmt.Sprint(cur) == want {
 				return cur
 			}
 		} else {
@@ -240,6 +296,19 @@ func runSnap(in SnapIn) Obs {
 	}
 	vm.M.Start(ctx)
 	vm.M.EnableKubeEventCb()
+	// the fake cluster's watch does not replay what happened before it was registered: wait
+	// until every informer's watch delivers (dyn.go: syncObjWatch)
+	if len(in.Namespaces) == 0 {
+		syncObjWatch(ctx, fc, vm, 1)
+	} else {
+		done := map[int]bool{}
+		for _, n := range in.Namespaces {
+			if !done[n] {
+				done[n] = true
+				syncObjWatch(ctx, fc, vm, n)
+			}
+		}
+	}
 	for _, op := range in.Ops {
 		var err error
 		switch op.Kind {
@@ -254,7 +323,7 @@ func runSnap(in SnapIn) Obs {
 			o.Note = op.Kind + ": " + err.Error()
 		}
 	}
-	o.Snap = stableSnapshot(vm)
+	o.Snap = stableSnapshot(vm, snapExpected(in))
 	if in.Restart {
 		// a fresh monitor on the same cluster (operator restart)
 		cancel()
@@ -267,7 +336,7 @@ func runSnap(in SnapIn) Obs {
 			return o
 		}
 		vm2.M.Start(ctx2)
-		o.Restart = stableSnapshot(vm2)
+		o.Restart = stableSnapshot(vm2, snapExpected(in))
 	}
 	return o
 }
@@ -468,6 +537,8 @@ func Run(in Input) Obs {
 		return runUpd(*in.Upd)
 	case in.Grp != nil:
 		return runGrp(*in.Grp)
+	case in.Dyn != nil:
+		return runDyn(*in.Dyn, in.DynOps)
 	}
 	return Obs{Note: "empty input"}
 }
@@ -558,6 +629,8 @@ func Render(in Input, obs *Obs, crash string) core.Case {
 		c.Coq = fmt.Sprintf("CGrp %s %d %d %s", core.CoqBool(in.Grp.Named), len(o.GrpKeys), len(o.GrpObjs), bad)
 		c.Key = fmt.Sprintf("grp%v", in.Grp.Named)
 		c.Tags = []string{"grp"}
+	case in.Dyn != nil:
+		renderDyn(*in.Dyn, in.DynOps, o, bad, &c)
 	}
 	return c
 }
@@ -687,26 +760,33 @@ func Gen(r *core.Rng, tier string) ([]core.In[Input], bool) {
 		Ctxs: []UpdCtx{{1, true}, {2, true}, {1, false}, {3, false}}}}, "corpus")
 	// an EMPTY snapshot is read once per execution, too (a second read of a locked binding drops its buffered events: C01)
 	add(Input{Upd: &UpdIn{Bindings: []UpdBinding{{1, []int{1}, false}, {2, []int{1}, false}}, Ctxs: []UpdCtx{{1, true}, {2, false}, {1, false}}, Empty: []int{1}}}, "corpus")
-	nSnap, nUpd := 120, 300
+	dynCorpus(add)
+	nSnap, nUpd, nDyn := 120, 300, 100
 	switch tier {
 	case "thorough":
-		nSnap, nUpd = 2000, 20000
+		nSnap, nUpd, nDyn = 2000, 20000, 2500
 	case "search":
-		nSnap, nUpd = 300, 2000
+		nSnap, nUpd, nDyn = 300, 2000, 400
 	}
 	for i := 0; i < nSnap; i++ {
 		s := genSnap(r, 3+r.Intn(10))
 		add(Input{Snap: &s}, "snap")
 	}
+	// the dyn cases (slower) are spread over the upd cases so that every worker gets its share
+	every := nUpd / nDyn
 	for i := 0; i < nUpd; i++ {
 		u := genUpd(r)
 		add(Input{Upd: &u}, "upd")
+		if i%every == 0 && i/every < nDyn {
+			d, ops := genDyn(r, 3+r.Intn(12))
+			add(Input{Dyn: &d, DynOps: ops}, "dyn")
+		}
 	}
 	return ins, false
 }
 
 var Driver = core.Driver[Input, Obs]{
-	Spec: core.Spec{Property: "C02", Imports: []string{"C02_Model", "C02_Spec", "C02_Corr"}, Corr: "C02_Corr", Triggers: []string{"F25", "F26"},
-		Rule: "snap: a real monitor on a fake cluster (static namespaces / all namespaces, nameSelector with repeated entries, initial objects, with and without jqFilter .data, keepFullObjectsInMemory true/false; object content = a part the filter selects + a label outside it, 35% of modifications touch only the latter) follows generated create/modify/delete histories over 3 namespaces x 3 names, Snapshot() at quiescence and after a restart compared entry by entry (identity, filterResult, object) with the matching objects of the cluster; upd: the real HookController.UpdateSnapshots over a reader that answers differently on every call, random include topologies and context arrays; grp: a real hook config with two kubernetes bindings sharing a group, named and unnamed (trigger F25); one ghost scenario (trigger F26); non-trivial = >=3 cluster operations or >=2 contexts; distinct by input"},
+	Spec: core.Spec{Property: "C02", Imports: []string{"C02_Model", "C02_Spec", "C02_Corr"}, Corr: "C02_Corr", Triggers: []string{"F25", "F26"}, ShrinkKey: "dyn_ops",
+		Rule: "snap: a real monitor on a fake cluster (static namespaces / all namespaces, nameSelector with repeated entries, initial objects, with and without jqFilter .data, keepFullObjectsInMemory true/false; object content = a part the filter selects + a label outside it, 35% of modifications touch only the latter) follows generated create/modify/delete histories over 3 namespaces x 3 names, Snapshot() at quiescence and after a restart compared entry by entry (identity, filterResult, object) with the matching objects of the cluster; upd: the real HookController.UpdateSnapshots over a reader that answers differently on every call, random include topologies and context arrays; grp: a real hook config with two kubernetes bindings sharing a group, named and unnamed (trigger F25); one ghost scenario (trigger F26); dyn: a real monitor with namespace.labelSelector (matchLabels or matchExpressions; its REAL namespace informer on the fake cluster, whose Namespace objects are kept equal to what a label-filtered watch shows; with and without nameSelector / jqFilter / keepFullObjectsInMemory) follows generated histories over 3 namespaces x 3 names of object create/modify/delete (objects moving between namespaces), namespaces created with or without the label / gaining or losing it / deleted (with their objects left behind, or deleted too), changes that keep a namespace matching, and operator restarts; namespaces matching at the start, at a restart and only later all stop matching and match again; Snapshot() at every read point (1-5 per history) compared entry by entry with the objects of the namespaces that match THEN; fixed corpus of 10 such histories; failing dyn histories are shortened; non-trivial = >=3 cluster operations or >=2 contexts; distinct by input"},
 	Gen: Gen, Run: Run, Render: Render, PerShard: 400, Workers: 8, CaseTimout: 40 * time.Second,
 }
